@@ -20,7 +20,7 @@ void h_TP_start(void) {
   __CPROVER_assume(p->m_maxThreadCount >= 1); size_t before = p->m_pool.len; size_t qbefore = p->m_queue.len;
   TP__start(p, r); quiet();
   __CPROVER_assert(g_notifies >= 1, "C08 a submission is followed by a notification");
-  __CPROVER_assert(p->m_isRunning, "C08 start() re-arms a stopped pool");
+  __CPROVER_assert(TP_FLAG(p), "C08 start() re-arms a stopped pool");
   __CPROVER_assert(p->m_queue.len == qbefore + 1 && p->m_queue.items[p->m_queue.head + qbefore] == r, "C07 the task is appended at the back of the queue");
   __CPROVER_assert(p->m_pool.len == before || (p->m_pool.len == before + 1 && before < (size_t)p->m_maxThreadCount && g_starts == 1), "C08 the number of worker threads never exceeds the configured maximum");
   CANARY; }
@@ -28,7 +28,7 @@ void h_TP_stop(void) {
   struct TP *p = mkpool(); g_role = ROLE_OWNER; g_workers_exist = 1;
   __CPROVER_assume(g_wthread == 0 || g_wi < p->m_pool.len);
   TP__stop(p); quiet();
-  __CPROVER_assert(!p->m_isRunning && p->m_pool.len == 0 && p->m_queue.len == 0, "C08 stop() leaves no worker, no queued task and the flag cleared");
+  __CPROVER_assert(!TP_FLAG(p) && p->m_pool.len == 0 && p->m_queue.len == 0, "C08 stop() leaves no worker, no queued task and the flag cleared");
   __CPROVER_assert(g_notifies >= 1, "C08 clearing the flag is followed by notify_all");
   CANARY; }
 void h_TP_clear(void) { struct TP *p = mkpool(); g_role = ROLE_OWNER; _Bool w; g_workers_exist = w; size_t q0 = p->m_queue.len; TP__clear(p); quiet();
